@@ -809,6 +809,12 @@ func TestC02(t *testing.T) {
 	// (a) the path law
 	rec.Rapid(t, "path-law", rec.Scale(40000, 2000000), func(t *rapid.T) {
 		c := lawCase{P: pathExpr(t), Input: univ.V{X: inputs.Draw(t, "input")}}
+		if strings.Contains(c.P, "$a.x") || strings.Contains(c.P, "$a[0]") || strings.Contains(c.P, "$a | ") {
+			// navigation from a bound variable is a negative form (invalid
+			// path), decided by path-model; the law speaks about path-safe p
+			rec.Discard("negative-form-in-path-law")
+			return
+		}
 		rec.Eval()
 		rec.Class("path-law")
 		rec.Sample(c)
